@@ -1,10 +1,10 @@
 package main
 
 import (
-	"sort"
 	"fmt"
 	"go/token"
 	"go/types"
+	"sort"
 	"strings"
 
 	"golang.org/x/tools/go/ssa"
@@ -428,55 +428,61 @@ func c17EmptyBatch(r *Run) {
 	// every return with EOF either follows the done flag or sets it on an empty batch; an error from next is returned as is
 	okDone := false
 	nBadLatch := 0
-	eachInstr(cl, func(in ssa.Instruction) {
-		st, ok := in.(*ssa.Store)
-		if !ok {
-			return
-		}
-		isFlag := false
-		if fv, ok := st.Addr.(*ssa.FreeVar); ok && fv.Name() == "done" {
-			isFlag = true
-		}
-		if f, ok := st.Addr.(*ssa.FieldAddr); ok && len(cl.Params) > 0 && f.X == ssa.Value(cl.Params[0]) && fieldName(f.X.Type(), f.Field) == "done" {
-			isFlag = true // the flag kept in the iterator's state object
-		}
-		if isFlag {
-			if c, ok := st.Val.(*ssa.Const); ok && c.Value != nil && c.Value.String() == "true" {
-				fa := p.FA(cl)
-				facts := fa.FactsAt(st)
-				empty := false
-				for _, f := range facts {
-					for _, a := range f.L.Atoms {
-						if a.Op == "len" && Entails(facts, linAtom(a)) { // len(batch) <= 0
-							empty = true
+	clTop := cl
+	for _, cl := range p.withHelpers(clTop, 1) {
+		cl := cl
+		eachInstr(cl, func(in ssa.Instruction) {
+			st, ok := in.(*ssa.Store)
+			if !ok {
+				return
+			}
+			isFlag := false
+			if fv, ok := st.Addr.(*ssa.FreeVar); ok && fv.Name() == "done" {
+				isFlag = true
+			}
+			if f, ok := st.Addr.(*ssa.FieldAddr); ok && len(cl.Params) > 0 && len(clTop.Params) > 0 && f.X == ssa.Value(cl.Params[0]) &&
+				types.Identical(cl.Params[0].Type(), clTop.Params[0].Type()) && fieldName(f.X.Type(), f.Field) == "done" {
+				isFlag = true // the flag kept in the iterator's state object (set by the iterator or a method it calls)
+			}
+			if isFlag {
+				if c, ok := st.Val.(*ssa.Const); ok && c.Value != nil && c.Value.String() == "true" {
+					fa := p.FA(cl)
+					facts := fa.FactsAt(st)
+					empty := false
+					for _, f := range facts {
+						for _, a := range f.L.Atoms {
+							if a.Op == "len" && Entails(facts, linAtom(a)) { // len(batch) <= 0
+								empty = true
+							}
 						}
 					}
-				}
-				// … and only then: the latch is set on the success edge of the refill (a refill that failed says nothing
-				// about the end of the listing — latching it turns a transient error into a false end of directory)
-				refillOK := false
-				eachInstr(cl, func(in2 ssa.Instruction) {
-					c2, ok := in2.(*ssa.Call)
-					if !ok || c2.Call.IsInvoke() || staticCallee(&c2.Call) != nil {
-						return
+					// … and only then: the latch is set on the success edge of the refill (a refill that failed says nothing
+					// about the end of the listing — latching it turns a transient error into a false end of directory)
+					refillOK := false
+					eachInstr(cl, func(in2 ssa.Instruction) {
+						c2, ok := in2.(*ssa.Call)
+						if !ok || c2.Call.IsInvoke() || staticCallee(&c2.Call) != nil {
+							return
+						}
+						if _, isB := c2.Call.Value.(*ssa.Builtin); isB {
+							return
+						}
+						if e := errResult(c2); e != nil && instrDominates(c2, st) && knownNilAt(e, st) {
+							refillOK = true
+						}
+					})
+					if empty && refillOK {
+						okDone = true
+					} else {
+						nBadLatch++
+						r.Bad("iterator", "mkNext1: the finished flag is set only after a successful refill that returned no entries", st.Pos(),
+							"the end-of-listing latch is set on a path where the refill failed or returned entries: a transient error (or a non-empty batch) ends the listing early and the remaining entries are never delivered")
 					}
-					if _, isB := c2.Call.Value.(*ssa.Builtin); isB {
-						return
-					}
-					if e := errResult(c2); e != nil && instrDominates(c2, st) && knownNilAt(e, st) {
-						refillOK = true
-					}
-				})
-				if empty && refillOK {
-					okDone = true
-				} else {
-					nBadLatch++
-					r.Bad("iterator", "mkNext1: the finished flag is set only after a successful refill that returned no entries", st.Pos(),
-						"the end-of-listing latch is set on a path where the refill failed or returned entries: a transient error (or a non-empty batch) ends the listing early and the remaining entries are never delivered")
 				}
 			}
-		}
-	})
+		})
+	}
+	cl = clTop
 	_ = nBadLatch
 	r.Check(okDone, "iterator", "mkNext1: an empty batch marks the listing finished", cl.Pos(), "an empty batch does not end the listing (the iterator is polled for ever / entries after it are lost)")
 }
